@@ -72,6 +72,12 @@ func newC07(tier string) run.Job {
 		gen.P('$', gen.Rec(gen.Wild()), gen.Wild()),
 		gen.P('$', gen.Wild()).F("g"),
 		gen.P('$', gen.Filter(gen.Cmp("==", gen.OpP(at(gen.Wild()).F("cnt")), gen.LitNum(2)))),
+		// order-sensitive aggregates: the first member in key order
+		gen.P('$', gen.Wild()).F("first"),
+		gen.P('$', gen.Filter(gen.Cmp("==", gen.OpP(at(gen.Wild()).F("first")), gen.LitNum(1)))),
+		gen.P('$', gen.Filter(gen.Cmp(">", gen.OpP(at(gen.Rec(gen.Wild())).F("first")), gen.LitNum(0))), gen.Wild()),
+		gen.P('$', gen.Multi("b", "a", "~", "")),
+		gen.P('$', gen.Rec(gen.Multi("b", "a", "aa"))),
 	}
 	maxSubset := 4
 	mk := func(ks []string, val func(i int) interface{}) interface{} {
@@ -279,7 +285,7 @@ func init() {
 			"keys: the empty key, \"10\", \"9\", \"B\", \"a\", \"aa\", \"b\", precomposed and decomposed e-acute, \"~\", U+FFFF, U+1F600 (byte order differs from rune, UTF-16 and length order)",
 		},
 		Bounds: map[string]string{
-			"quick":    "16 paths with wildcard, filter, recursive, multi-name and aggregate steps x objects over every 2-, 3- and 4-key subset of 12 keys (values: numbers, objects, nested objects) plus objects of 5..12 keys and 4 documents that share containers; every iteration order at ONE map range per execution; every fourth small document and every 5..12-key document also after evaluations on maps of 7, 1, 12, 12-then-3 and 3-then-12 keys (pool recycling) with pool answers enumerated; large objects also evaluated, edited in place (one key removed, one added) and evaluated again",
+			"quick":    "21 paths with wildcard, filter, recursive, multi-name and aggregate steps x objects over every 2-, 3- and 4-key subset of 12 keys (values: numbers, objects, nested objects) plus objects of 5..12 keys and 4 documents that share containers; every iteration order at ONE map range per execution; every fourth small document and every 5..12-key document also after evaluations on maps of 7, 1, 12, 12-then-3 and 3-then-12 keys (pool recycling) with pool answers enumerated; large objects also evaluated, edited in place (one key removed, one added) and evaluated again",
 			"thorough": "same documents; orders deviating at up to TWO map ranges per execution",
 		},
 		New: newC07,
